@@ -85,6 +85,9 @@ def run(pid, tier, seed, chk):
             bad = None
             for i in range(max(len(model), len(impl))):
                 a = model[i] if i < len(model) else '<none>'; b = impl[i] if i < len(impl) else '<no output: aborted>'
+                if ' c-' in b + ' ':   # a case run with no callback installed (K 0): the model's token count is masked, as in the driver's own comparison
+                    import re as _re
+                    h, sep, t = a.partition(' | '); a = _re.sub(r' c[0-9]+( |$)', r' c-\1', h) + sep + t
                 if a != b: bad = (i, a, b); break
             if p.returncode != 0 or bad:
                 disagreements += 1
